@@ -20,6 +20,10 @@ CHECKS = {
    text="check_compiler_version executed symbolically from MIR for every version triple (accepted iff major equal and (minor,patch) <= supported, otherwise an error-level report; no pragma => one warning), plus the C03 main/writer harness specialised to error-level reports: every error offered to the writer is displayed at every --level unless allowed, and then the exit status is non-zero; 'No issues found.' only when nothing was displayed.",
    note=TB + "Partial: that the parser/desugarer/lifter actually produce a report for each failure class is outside this check (needs the pipeline); file-system errors are represented by a location-less error report offered to the writer.",
    ref="DESIGN.md §3 C02"),
+ 'C19': dict(
+   text="Partial (FileStack): FileStack::{new, add_libraries, add_files, add_include, include_library, take_next, is_user_input} executed from MIR over an abstract file system (fs::canonicalize = arbitrary symbolic partial map from spellings to 3 canonical files, identity on canonical paths): from an arbitrary state whose stack holds canonical paths, take_next yields only unvisited paths, marks exactly the yielded one and shrinks the stack (=> each file at most once, cycles and diamonds terminate); add_include preserves the invariant (pushes canonical paths only) and a failed include is located at the include statement; every .circom input is pushed in canonical form or reported; is_user_input iff canonical path of a named input.",
+   note=TB + "The file-system stub is the assumption. Outside: real path spelling and symlinks, directories as inputs, that parse_files uses the stack as intended, findings for included definitions (C03 filter clause).",
+   ref="DESIGN.md §3 C19"),
  'C20': dict(
    text="Cfg::propagate_values and Cfg::propagate_degrees (and the real block/statement/expression rules below them) executed symbolically from MIR on three small SSA IR graphs (straight line, branch with phi, loop with phi cycle; template and function; symbolic literals) with the clock stubbed to arbitrary non-decreasing durations, so the pass at which the 10 s box fires is a solver variable: on every path the function returns normally, no rule runs after the bail-out, and the annotations at return are exactly those present when the clock was read. With the one-step soundness of every rule from any sound state (C06-X/C07-X) every cut point is sound by induction.",
    note=TB + "The clock stub is the assumption (elapsed() returns any non-decreasing duration). Counterexamples cannot be replayed natively (the clock is not controllable without rewriting source lines); they are reported from the deterministic engine run. Outside: wall-clock behaviour, termination of the un-cut fixpoint, graphs other than the three shapes.",
